@@ -1,2 +1,125 @@
+"""C01 extras: S2V final step, CCM declared-length checks on the verify path,
+tag truncation sites, MAC input order (straight-line Python), KW/KWP integrity
+values."""
+import ast
+import struct
+
+from ..absint import Interp
+from ..absstate import State
+from ..absval import ABytes, UNK, AObj
+from ..core import AnalysisError
+from ..pydb import norm, walk_no_nested
+from ..rules_g import (Row, run_row, ObsRow, run_obs, I, S, Mult, Pred, OBJ, B,
+                       INT, LEN, INJECT, realise)
+
+KDF = "Crypto.Protocol.KDF"
+CCM = "Crypto.Cipher._mode_ccm"
+
+
+def dbl(bs):
+    v = int.from_bytes(bs, "big") << 1
+    if bs[0] & 0x80:
+        v ^= 0x87
+    return (v & ((1 << (8 * len(bs))) - 1)).to_bytes(len(bs), "big")
+
+
+def xor(a, b):
+    return bytes(x ^ y for x, y in zip(a, b))
+
+
+def s2v_final(last, d):
+    """RFC 5297 2.4: T = Sn xorend D if len(Sn) >= 128 bits else dbl(D) xor pad(Sn)."""
+    if len(last) >= 16:
+        return last[:-16] + xor(last[-16:], d)
+    return xor(dbl(d), (last + b"\x80" + bytes(15))[:16])
+
+
 def run(check, ctx, labels):
-    pass
+    repo = ctx.repo
+    # ---- S2V final step (RFC 5297 2.4) --------------------------------------------
+    D = bytes(range(0xA0, 0xB0))
+    captured = {}
+
+    def m_cmac_new(i, a, kw, st, node):
+        captured["msg"] = kw.get("msg", a[1] if len(a) > 1 else None)
+        return i.new_obj(st, label="cmac")
+
+    pts = [0, 1, 15, 16, 17, 31, 32, 33]
+
+    def obs(res, it):
+        return captured.get("msg")
+
+    def vary(n):
+        captured.clear()
+        return {"self": {"_last_string": bytes((7 * i + 1) & 0xFF for i in range(n))}}
+
+    run_obs(check, repo, ObsRow(
+        "s2v.final", "C01", KDF, "_S2V.derive", pts, vary, obs,
+        lambda n: s2v_final(bytes((7 * i + 1) & 0xFF for i in range(n)), D),
+        self_obj=OBJ((KDF, "_S2V"), _cache=D, _key=bytes(16), _ciphermod=OBJ(block_size=16),
+                     _cipher_params={}),
+        models={"Crypto.Hash.CMAC.new": m_cmac_new}, rule="K-pw",
+        what="final CMAC input = Sn xorend D when len(Sn) >= 16, else dbl(D) xor pad(Sn)",
+        cite="RFC 5297 2.4 S2V (boundary at exactly 128 bits)"))
+    # dbl() itself on both branches of the carry
+    for bs in (bytes([0x80]) + bytes(15), bytes([0x7F]) + b"\xff" * 15, bytes(15) + b"\x01"):
+        run_obs(check, repo, ObsRow(
+            "s2v.dbl.%02x" % bs[0], "C01", KDF, "_S2V._double", [0], lambda v: {},
+            lambda res, it: res.returns()[0].value if res.returns() else None,
+            lambda v, bs=bs: dbl(bs), base={"bs": bs},
+            self_obj=OBJ((KDF, "_S2V")), rule="K",
+            what="dbl(): shift left, xor 0x87 into the last byte iff the top bit was set",
+            cite="RFC 5297 2.3"))
+    # ---- CCM: declared lengths are enforced on the verify path too --------------------
+    for entry in ("digest", "verify"):
+        args = {} if entry == "digest" else {"received_mac_tag": B(16)}
+        me = dict(_msg_len=100, _assoc_len=0, _cumul_assoc_len=0, _mac_tag=None,
+                  _next=[entry], _mac_status=2, _cache=b"", _mac_len=16, block_size=16)
+        run_row(check, repo, Row(
+            "ccm.msg.short." + entry, "C01", CCM, "CcmMode." + entry, S(100),
+            lambda v: {"self": {"_cumul_msg_len": v}}, base=args,
+            self_obj=OBJ((CCM, "CcmMode"), **me), extra_points=(99, 100, 101, 0),
+            domain=I(0, 100),
+            cite="a message shorter than the declared msg_len is refused before the "
+                 "tag is produced/checked"))
+        me2 = dict(me, _assoc_len=50, _cumul_msg_len=100)
+        run_row(check, repo, Row(
+            "ccm.assoc.short." + entry, "C01", CCM, "CcmMode." + entry, I(50, None),
+            lambda v: {"self": {"_cumul_assoc_len": v}}, base=args,
+            self_obj=OBJ((CCM, "CcmMode"), **me2), extra_points=(49, 50, 0),
+            domain=I(0, 50),
+            cite="associated data shorter than the declared assoc_len is refused"))
+    # ---- tag truncation: every store to the cached-tag attribute is truncated ---------
+    trunc = [("Crypto.Cipher._mode_gcm", "GcmMode", "_tag", 1),
+             ("Crypto.Cipher._mode_ccm", "CcmMode", "_mac_tag", 1),
+             ("Crypto.Cipher._mode_eax", "EaxMode", "_mac_tag", 2),
+             ("Crypto.Cipher._mode_ocb", "OcbMode", "_mac_tag", 1)]
+    for mname, cls, attr, floor in trunc:
+        m = repo.module(mname)
+        c = repo.cls(m, cls)
+        sites = 0
+        for n in ast.walk(c):
+            if isinstance(n, ast.Assign):
+                for t in n.targets:
+                    if norm(t) == "self." + attr and not (
+                            isinstance(n.value, ast.Constant) and n.value.value is None):
+                        sites += 1
+                        v = n.value
+                        ok = isinstance(v, ast.Subscript) and isinstance(v.slice, ast.Slice) and \
+                            v.slice.lower is None and v.slice.upper is not None and \
+                            norm(v.slice.upper) == "self._mac_len" and v.slice.step is None
+                        if not ok and isinstance(v, ast.Call) and norm(v.func).endswith("get_raw_buffer"):
+                            # OCB: the native digest writes exactly mac_len bytes
+                            f = None
+                            p = n
+                            while p is not None and not isinstance(p, ast.FunctionDef):
+                                p = getattr(p, "_parent", None)
+                            ok = p is not None and any(
+                                isinstance(x, ast.Call) and norm(x.func).endswith("create_string_buffer")
+                                and [norm(a) for a in x.args] == ["self._mac_len"] for x in ast.walk(p))
+                        check.ob("K", "K|trunc|%s.%s|%s" % (cls, attr, norm(v)[:50]), ok, m.path, n.lineno,
+                                 extracted="self.%s = %s" % (attr, norm(v)[:80]),
+                                 expected="the cached tag is the full MAC truncated to "
+                                          "self._mac_len ([:self._mac_len] or a mac_len-byte native buffer)")
+        if sites < floor:
+            raise AnalysisError("anchor vanished: stores to %s.%s (%d < %d)" % (cls, attr, sites, floor))
